@@ -2,6 +2,7 @@ import Model.Flow
 import Proofs.FlowOnce
 import Proofs.FlowExec
 import Proofs.FlowLive
+import Proofs.FlowOrder
 
 /-! # C11 — no transaction taken from the mempool is lost on its way into the chain
 
@@ -258,6 +259,26 @@ theorem C11_restarts_lose_nothing (c : Cfg) (hc : CfgOK c) (ops : List Op) (hn :
   have hr : runG c σ0 {} ops = some (σ, g) := by
     unfold history at h; rw [h0] at h; exact h
   exact C11_crash_partial c hc ops σ g h hK (run_lost hc hi0 hn hr)
+
+/-- **Release order across clean restarts** (histories with restarts, execution failures, refusals — no crash): the
+chain followed by the block waiting at `height + 1` is, as a SEQUENCE, exactly what the queue released, in release
+order.  (The order in which the queue releases what was handed over is the queue's business: across a restart it is
+key order, C10's recorded finding `C10/fifo/restart-delivers-in-key-order`; hand-over order = chain order is claimed
+only without restarts, `C11_conservation`.  What is handed over is never lost: `C11_restarts_lose_nothing`, membership.) -/
+theorem C11_release_order_across_restarts (c : Cfg) (hc : CfgOK c) (ops : List Op) (hn : ∀ op ∈ ops, op.isCrash = false)
+    (σ : RunSt) (g : Ghost) (h : history c ops = some (σ, g)) :
+    g.released.flatten = chainTxs σ.n.prod.store ++ pendingTxs σ.n.prod.store := by
+  obtain ⟨σ0, h0, hi0⟩ := init_inv hc
+  have hr : runG c σ0 {} ops = some (σ, g) := by
+    unfold history at h; rw [h0] at h; exact h
+  exact run_ord hc hi0 ((hi0.exact rfl).2.1) hn hr
+
+/-- non-vacuity: two batches queued, a restart reloads them in key order (`[t2]` before `[t1]`), a failed execution and
+another restart: the chain is exactly what was released, in release order — which is not the hand-over order -/
+example :
+    (history wCfg [.mempool [t1], .reap, .produce, .mempool [t1, t2], .reap, .restart, .produceFail, .restart, .produce,
+        .produce, .produce]).map (fun r => (r.2.handed.flatten, r.2.released.flatten, chainTxs r.1.n.prod.store)) =
+      some ([t1, t2], [t2, t1], [t2, t1]) := by decide +kernel
 
 /-- non-vacuity: crashes at harmless points of `reap` and `produce`, a crash during recovery and a clean restart;
 nothing is in `lost`, three transactions handed over, all in the chain at the end -/
